@@ -473,3 +473,7 @@ pub fn decode_fixed_size_binary(
     // Need to set the length since when size is 0 and no nulls the length could not be determined by FixedSizeBinaryArray
     FixedSizeBinaryArray::try_new_with_len(size, values.into(), nulls, num_rows).unwrap()
 }
+
+#[cfg(kani)]
+#[path = "/verif/kani/arrow-row/fixed.rs"]
+mod verif_kani;
